@@ -12,13 +12,15 @@
    404/405).  The specification side of the lookup judges is [expect] over the
    list of declarations the IMPLEMENTATION accepted, so it does not depend on
    the model's own registration verdicts. *)
-From DS Require Import Base Versions Router RouterSpec Pct Utf8 PathNorm.
+From DS Require Import Base Versions Router RouterSpec Pct Utf8 PathNorm Register.
 
 Definition V_AGREE : N := 0.
 Definition V_VIOLATION : N := 1.
 Definition V_DIVERGE : N := 2.
 Definition V_MALFORMED : N := 9.
 Definition V_K2R : N := 106.
+
+Definition bool_eqb (a b : bool) : bool := if a then b else negb b.
 
 Definition ncmp := N.compare.
 Notation ep := (endpoint N).
@@ -33,7 +35,11 @@ Inductive obs :=
 
 Inductive rcase :=
 | CTable (eps : list (str * ep)) (codes : list N)
-         (paths methods : list str) (versions : list (option N)) (os : list obs).
+         (paths methods : list str) (versions : list (option N)) (os : list obs)
+  (* one registration on an empty API with a tag policy: the validators of
+     ApiDescription::register (C02) *)
+| CReg (policy : N) (allow_other : bool) (known : list str) (visible : bool) (tags : list str)
+       (path : str) (params : list (N * str * ps)) (dfs : list (str * ps)) (code : N).
 
 (* panic classes as the harness numbers them (rest-name and var-name share a
    message in router.rs, hence a code) *)
@@ -200,8 +206,52 @@ Definition judge_unambiguous (acc : list (decl N)) (qs : list (str * str * optio
          | Ok segs => match expect N ncmp acc m segs v with XAmbiguous => V_VIOLATION | _ => V_AGREE end
          end) qs.
 
+Definition mk_params (l : list (N * str * ps)) : list param :=
+  map (fun x => mkParam (if fst (fst x) =? 0 then LPath else LQuery) (snd (fst x)) (snd x)) l.
+
+Definition verr_code (e : verr) : N := match e with VE_cycle => 30 | VE_bad_ref => 31 | VE_fuel => 9 end.
+
+(* the property's reading of one declaration: tags respect the policy, the
+   path variables are exactly the handler's path parameters, no name is both
+   a path and a query parameter, every path / query parameter is scalar (the
+   wildcard's an array of strings), and the template itself is well formed *)
+Definition valid_decl (tc : tag_config) (visible : bool) (tags : list str)
+           (t : list pseg) (ps : list param) (d : defs) : bool :=
+  tags_ok tc visible tags && wf_template t && path_params_match t ps &&
+  match named_params_ok t d ps with Ok true => true | _ => false end.
+
+Definition validator_stage (c : N) : bool := (c =? 50) || (c =? 30) || (c =? 31).
+
+Definition judge_reg (policy : N) (allow_other : bool) (known : list str) (visible : bool)
+           (tags : list str) (path : str) (params : list (N * str * ps)) (dfs : list (str * ps))
+           (code : N) : N :=
+  let tc := mkTagConfig (if policy =? 0 then TagAny else if policy =? 1 then TagAtLeastOne else TagExactlyOne)
+                        allow_other known in
+  let e := mkEp [111;112] [71;69;84] (VAll : vrange N) 0 None visible in
+  let d := mkDecl path e tags (mk_params params) dfs in
+  let model := match register N ncmp tc (empty_node N) d with
+               | RAccepted _ => 0
+               | RRefused => 50
+               | RPanic e => reg_code e
+               | RPanicV e => verr_code e
+               end in
+  if model =? 9 then V_MALFORMED else
+  match parse_template path with
+  | Err pe =>
+      (* a malformed template must not be accepted; which check trips first
+         (tag policy or template syntax) is the model's business *)
+      if code =? 0 then V_VIOLATION else if code =? model then V_AGREE else V_DIVERGE
+  | Ok t =>
+      let want := valid_decl tc visible tags t (mk_params params) dfs in
+      if negb (bool_eqb (code =? 0) want) then V_VIOLATION
+      else if (code =? model) || (validator_stage code && validator_stage model) then V_AGREE
+      else V_DIVERGE
+  end.
+
 Definition judge_detail_c02 (c : rcase) : list N :=
   match c with
+  | CReg policy allow_other known visible tags path params dfs code =>
+      [judge_reg policy allow_other known visible tags path params dfs code]
   | CTable eps codes paths methods versions os =>
       let st := reg_all {| rs_acc := []; rs_trie := empty_node N; rs_codes := []; rs_stop := false |}
                         eps codes in
@@ -219,6 +269,7 @@ Definition judge_detail_c02 (c : rcase) : list N :=
 
 Definition judge_detail_lookups (which : N) (c : rcase) : list N :=
   match c with
+  | CReg _ _ _ _ _ _ _ _ _ => []
   | CTable eps codes paths methods versions os =>
       match os with
       | [] => []           (* registration ended early: nothing was looked up *)
